@@ -299,6 +299,23 @@ func buildCorpus(seed int64, env *Env, tm map[string]reflect.Type, nm map[string
 		r.Read(g)
 		corpus = append(corpus, corpusEntry{damaged: true, wire: g, what: "decode random"})
 	}
+	// instances of the third, fourth, ... class of a message in VALUE position (their compact tags x62, x63
+	// double as legacy chunk tags), and - as the LAST entries, so that the alone pass meets them after everything
+	// else - binaries chunked the legacy way ('b' non-final chunks): what one decoder learns about its peer's
+	// dialect is that decoder's business
+	for k := 0; k < 8; k++ {
+		v := []interface{}{&zoo.K01{A: int32(k)}, &zoo.K02{A: 2}, &zoo.K03{A: 3}, &zoo.K03{A: 4}, &zoo.K04{A: 5}, map[interface{}]interface{}{"k": &zoo.K03{A: 6}}}
+		if b, err := hessian.ToBytes(v, copyNames(nm)); err == nil {
+			corpus = append(corpus, corpusEntry{wire: b, what: "decode third-class instances in value position"})
+		}
+	}
+	for k := 0; k < 8; k++ {
+		b := []byte{0x62, 0x00, 0x02, 0x01, byte(k), 'B', 0x00, 0x01, 0x03}
+		if k%2 == 1 {
+			b = append(append([]byte{0x57}, b...), 0x22, 7, 8, 'Z')
+		}
+		corpus = append(corpus, corpusEntry{wire: b, what: "decode legacy-chunked binary"})
+	}
 	return corpus
 }
 
